@@ -327,7 +327,7 @@ func buildEvidence(spec *Spec, tier string, seed int, runs []*evRun, violations,
 		eo, ed := 0, 0
 		for _, k := range keys {
 			s := res.Sites[k]
-			if k == "$branch" {
+			if k == "$branch" || k == "$range" {
 				continue
 			}
 			o := s.Discharged + s.Violated + s.Unknown
